@@ -104,6 +104,7 @@ class State:
         self.counters: Dict[str, int] = {}
         self.minlen: Dict[Term, int] = {}  # guaranteed minimum length (in bytes) of a bytes source
         self.notes: List[str] = []
+        self.cm_stack: List[Tuple[Dict[str, Term], int]] = []   # (caller environment, yields so far) per generator context manager being run
 
     def fork(self) -> "State":
         s = State()
@@ -115,6 +116,7 @@ class State:
         s.counters = dict(self.counters)
         s.minlen = dict(self.minlen)
         s.notes = list(self.notes)
+        s.cm_stack = [(dict(e), n) for e, n in self.cm_stack]
         return s
 
     def fresh(self, base: str) -> str:
@@ -139,6 +141,7 @@ class Ctx:
     module: Module
     depth: int
     where_stack: Tuple[str, ...] = ()
+    cm: Any = None   # set while the body of a generator context manager runs: what to do at its `yield`
 
     def loc(self, node: ast.AST) -> str:
         q = self.fi.qualname if self.fi else "<module>"
@@ -154,6 +157,21 @@ class Outcome:
     @property
     def exc_name(self) -> str:
         return self.value[1] if self.kind == "raise" else ""
+
+
+def _walk_own(stmts: Any) -> Any:
+    """The nodes of a statement list, not descending into nested function / class definitions or lambdas."""
+    todo = list(stmts)
+    while todo:
+        n = todo.pop()
+        yield n
+        for ch in ast.iter_child_nodes(n):
+            if not isinstance(ch, (ast.FunctionDef, ast.AsyncFunctionDef, ast.ClassDef, ast.Lambda)):
+                todo.append(ch)
+
+
+def is_generator(fi: FunctionInfo) -> bool:
+    return any(isinstance(n, (ast.Yield, ast.YieldFrom)) for n in _walk_own(fi.node.body))
 
 
 class Unsupported(Exception):
@@ -197,6 +215,15 @@ class Interp:
         ctx = Ctx(fi, fi.module, 0)
         outs = self._invoke(fi, args, st, ctx)
         self._note_opaque(fi, outs)
+        for o in outs:
+            # a remembered result handed out of the analysed entry point (directly or inside the returned object)
+            vals = [o.value] if o.kind == "return" else []
+            if o.kind == "return" and isinstance(o.value, tuple) and o.value[:1] == ("obj",) and o.value[1] in o.state.heap:
+                ho_ = o.state.heap[o.value[1]]
+                vals += list(ho_.fields.values()) + [x for x in ho_.items if isinstance(x, tuple)]
+            for v_ in vals:
+                if isinstance(v_, tuple) and v_[:1] == ("obj",) and v_[1] in o.state.heap and o.state.heap[v_[1]].name.startswith("memo:"):
+                    T.HAZARDS[("CACHED", o.state.heap[v_[1]].name[5:])] = f"the remembered result of the memoised {o.state.heap[v_[1]].name[5:]} is returned by {fi.qualname} to callers outside the analysis"
         return outs
 
     def _note_opaque(self, fi: Any, outs: List[Outcome]) -> None:
@@ -228,7 +255,10 @@ class Interp:
             raise AnalysisError(f"inlining depth exceeded at {fi.key}")
         self.functions_visited[fi.key] = self.functions_visited.get(fi.key, 0) + 1
         cdecos = [d for d in fi.decorators if d.split("(")[0].split(".")[-1] in ("cache", "lru_cache", "cached_property", "memoize", "memoized")]
-        if cdecos:
+        cached_entry = None
+        if cdecos and self._const_like_args(bound, st):
+            cached_entry = (len(st.events), cdecos)     # judged after the body ran, see _memo_is_constant_table
+        elif cdecos:
             T.HAZARDS[("CACHED", fi.key)] = (f"{fi.qualname} is decorated with {cdecos} and was inlined as if it were not: calls after the first with an equal key return the "
                                               f"remembered result (the key of a method is `self` by its __hash__/__eq__), which this analysis does not model")
         saved_env = st.env
@@ -242,10 +272,33 @@ class Interp:
             if p not in st.env:
                 raise AnalysisError(f"missing argument {p} for {fi.key}")
         body = [s for s in fi.node.body]
+        gen: Optional[Term] = None
+        if is_generator(fi):
+            # A generator function is run eagerly and its result is the list of the values it yields.  That equals the
+            # lazy run when the body has no observable effect and the object is consumed whole in the statement that
+            # created it (iter_items checks this); anything else is not modelled.
+            if fi.is_async:
+                raise AnalysisError(f"asynchronous generator {fi.key} outside `async with` is not modelled")
+            gen = st.alloc(HeapObj("list", None, {}, [], False, "gen:" + fi.qualname, True))
+            st.env["$gen"] = gen
+            n_events = len(st.events)
         results = self.exec_block(body, st, nctx)
+        if cached_entry is not None and not self._memo_is_constant_table(fi, results, cached_entry[0]):
+            T.HAZARDS[("CACHED", fi.key)] = (f"{fi.qualname} is decorated with {cached_entry[1]} and was inlined as if it were not: calls after the first with an equal key return the "
+                                              f"remembered result, and the result is not a constant table of constant arguments (the one memoisation this analysis proves transparent)")
         outs: List[Outcome] = []
         for s, sig in results:
             s.env = dict(saved_env)  # every path continues with its own copy of the caller's environment
+            if gen is not None:
+                eff = [e for e in s.events[n_events:] if not _benign_event(e, s)]
+                if eff:
+                    raise AnalysisError(f"generator {fi.key} has observable effects ({eff[0]!r}): lazy evaluation order is not modelled")
+                if sig is None or (sig[0] == "return" and is_c(sig[1]) and sig[1][1] is None):
+                    s.heap[gen[1]].fields["$born"] = c(getattr(self, "cur_serial", None))
+                    outs.append(Outcome(s, "return", gen))
+                    continue
+                if sig[0] == "return":
+                    raise AnalysisError(f"generator {fi.key} returns a value")
             if sig is None:
                 outs.append(Outcome(s, "return", c(None)))
             elif sig[0] == "return":
@@ -255,6 +308,58 @@ class Interp:
             else:
                 raise AnalysisError(f"stray {sig[0]} in {fi.key}")
         return outs
+
+    # -- memoised functions -------------------------------------------------
+    # A cache decorator changes nothing observable when the function is a constant table: constant arguments (classes,
+    # enum members, literals), no effect, one returning path whose value is built from constants only, and a result
+    # nobody mutates or lets escape.  The first three are checked here; the result object is then marked "memo:" and
+    # every mutation / escape of a marked object stops the analysis (frozen_guard).  Anything else keeps the hazard.
+    def _const_like(self, v: Term, st: State, depth: int = 0) -> bool:
+        if not isinstance(v, tuple) or not v or depth > 6:
+            return False
+        if v[0] in ("c", "enum", "class", "func", "builtin", "ext"):
+            return True
+        if v[0] == "seq":
+            return all(isinstance(a, tuple) and a[:1] == ("L",) for a in v[2])    # literal text
+        if v[0] == "tuple":
+            return all(self._const_like(x, st, depth + 1) for x in v[1])
+        if v[0] in ("clist", "cset"):
+            return all(self._const_like(x, st, depth + 1) for x in v[1])
+        if v[0] == "cdict":
+            return all(self._const_like(k, st, depth + 1) and self._const_like(x, st, depth + 1) for k, x in v[1])
+        if v[0] == "obj":
+            ho = st.heap.get(v[1])
+            if ho is None or ho.symbolic or ho.kind == "obj":
+                return False
+            if ho.kind == "dict":
+                return all(self._const_like(k, st, depth + 1) and self._const_like(x, st, depth + 1) for k, x in ho.items)
+            return all(self._const_like(x, st, depth + 1) for x in ho.items)
+        return False
+
+    def _const_like_args(self, bound: Dict[str, Term], st: State) -> bool:
+        return all(v[0] in ("c", "enum", "class") or (v[0] == "tuple" and all(x[0] in ("c", "enum", "class") for x in v[1])) for v in bound.values())
+
+    def _memo_is_constant_table(self, fi: FunctionInfo, results: List[Tuple[State, Any]], n_events: int) -> bool:
+        if len(results) != 1:
+            return False
+        s, sig = results[0]
+        if sig is None or sig[0] != "return" or s.pending:
+            return False
+        if any(not _benign_event(e, s) or e.kind == "store" for e in s.events[n_events:]):
+            return False
+        v = sig[1]
+        if not self._const_like(v, s):
+            return False
+        if v[0] == "obj":
+            s.heap[v[1]].name = "memo:" + fi.qualname
+        return True
+
+    def frozen_guard(self, v: Term, st: State, what: str, where: str) -> None:
+        """Stop when the remembered result of a memoised function is mutated, or handed to code the analysis does not see."""
+        if isinstance(v, tuple) and v and v[0] == "obj":
+            ho = st.heap.get(v[1])
+            if ho is not None and ho.name.startswith("memo:"):
+                raise AnalysisError(f"the remembered result of the memoised {ho.name[5:]} is {what} at {where}: every later caller would see it (not modelled)")
 
     # ------------------------------------------------------------------
     # statements
@@ -316,11 +421,17 @@ class Interp:
         m = getattr(self, "st_" + type(node).__name__, None)
         if m is None:
             raise AnalysisError(f"unsupported statement {type(node).__name__} at {ctx.loc(node)}")
-        if isinstance(node, (ast.Return, ast.Assign, ast.Expr, ast.AnnAssign)) and getattr(node, "value", None) is not None:
-            hoisted = self._hoist_nested_awaits(node)
-            if hoisted is not None:
-                return self.exec_block(hoisted, st, ctx)
-        return m(node, st, ctx)
+        self._serial = getattr(self, "_serial", 0) + 1
+        prev_serial = getattr(self, "cur_serial", None)
+        self.cur_serial = self._serial
+        try:
+            if isinstance(node, (ast.Return, ast.Assign, ast.Expr, ast.AnnAssign)) and getattr(node, "value", None) is not None:
+                hoisted = self._hoist_nested_awaits(node)
+                if hoisted is not None:
+                    return self.exec_block(hoisted, st, ctx)
+            return m(node, st, ctx)
+        finally:
+            self.cur_serial = prev_serial
 
     def _hoist_nested_awaits(self, node: Any) -> Optional[List[ast.stmt]]:
         """`return C(await f(x))` -> `$aw1 = await f(x); return C($aw1)`.  An awaited call nested inside the
@@ -434,10 +545,37 @@ class Interp:
     def st_Expr(self, node: ast.Expr, st: State, ctx: Ctx) -> List[Tuple[State, Any]]:
         if isinstance(node.value, ast.Constant):
             return [(st, None)]
+        if isinstance(node.value, (ast.Yield, ast.YieldFrom)):
+            return self._yield_stmt(node.value, st, ctx)
         out = []
         for s, v, sig in self.eval_forking(node.value, st, ctx):
             out.append((s, sig))
         return out
+
+    def _yield_stmt(self, y: ast.AST, st: State, ctx: Ctx) -> List[Tuple[State, Any]]:
+        """`yield v` / `yield from xs` as a statement (the value sent back is not used)."""
+        if ctx.cm is not None:
+            if isinstance(y, ast.YieldFrom):
+                raise AnalysisError(f"yield from in a generator context manager at {ctx.loc(y)}")
+            v = self.eval(y.value, st, ctx) if y.value is not None else c(None)
+            out: List[Tuple[State, Any]] = []
+            for s, sig in self._flush(st, ctx, y):
+                if sig is not None:
+                    out.append((s, sig))
+                else:
+                    out.extend(ctx.cm(s, v))
+            return out
+        g = st.env.get("$gen")
+        if g is None:
+            raise AnalysisError(f"yield outside a modelled generator at {ctx.loc(y)}")
+        if isinstance(y, ast.YieldFrom):
+            items = self.iter_items(self.eval(y.value, st, ctx), st, ctx, y)
+            if items is None:
+                raise AnalysisError(f"yield from an iterable of unknown length at {ctx.loc(y)}")
+            st.heap[g[1]].items.extend(items)
+        else:
+            st.heap[g[1]].items.append(self.eval(y.value, st, ctx) if y.value is not None else c(None))
+        return self._flush(st, ctx, y)
 
     def st_Return(self, node: ast.Return, st: State, ctx: Ctx) -> List[Tuple[State, Any]]:
         if node.value is None:
@@ -581,6 +719,7 @@ class Interp:
     def st_AugAssign(self, node: ast.AugAssign, st: State, ctx: Ctx) -> List[Tuple[State, Any]]:
         load = ast.copy_location(_as_load(node.target), node)
         cur = self.eval(load, st, ctx)
+        self.frozen_guard(cur, st, "the target of an augmented assignment", ctx.loc(node))
         rhs = self.eval(node.value, st, ctx)
         v = self.binop(node.op, cur, rhs, st, ctx, node)
         self.assign(node.target, v, st, ctx)
@@ -597,7 +736,7 @@ class Interp:
             if items is not None:
                 if len(items) < len(before) + len(after):
                     st.may_raise("ValueError", c(True), ctx.loc(tgt))
-                    items = items + [top("bad unpack")] * (len(before) + len(after) - len(items))
+                    items = items + [top("never: bad unpack")] * (len(before) + len(after) - len(items))
                 for t, x in zip(before, items):
                     self.assign(t, x, st, ctx)
                 mid = items[len(before):len(items) - len(after)]
@@ -631,7 +770,7 @@ class Interp:
         if isinstance(v, tuple) and v and v[0] == "tuple":
             if len(v[1]) != n:
                 st.may_raise("ValueError", c(True), ctx.loc(node))
-                return [top("bad unpack")] * n
+                return [top("never: bad unpack")] * n
             return list(v[1])
         if isinstance(v, tuple) and v and v[0] == "obj" and st.heap[v[1]].kind == "list":
             items = st.heap[v[1]].items
@@ -641,9 +780,17 @@ class Interp:
             # unpacking a str.split() result into n names: ValueError unless exactly n parts
             st.may_raise("ValueError", ("cmp", "!=", ("nparts", v), c(n)), ctx.loc(node))
             return [("seq", "s", (("txt", ("part", v, i, n)),)) for i in range(n)]
+        if isinstance(v, tuple) and v and v[0] in ("mapobj", "lazymap", "clist", "cset", "cdict", "lookup", "obj", "seq", "app"):
+            its = self.iter_items(v, st, ctx, node)
+            if its is not None:
+                if len(its) != n:
+                    st.may_raise("ValueError", c(True), ctx.loc(node))
+                    return [top("never: bad unpack")] * n
+                return list(its)
         return [("item", v, c(i)) for i in range(n)]
 
     def store_attr(self, base: Term, attr: str, v: Term, st: State, ctx: Ctx, node: ast.AST) -> None:
+        self.frozen_guard(v, st, "stored in an attribute", ctx.loc(node))
         desc = self.describe(base, st)
         st.events.append(Event("store", f"{desc}.{attr}", (v,), (), ctx.loc(node), ctx.fi.key if ctx.fi else "", result=base, pc_len=len(st.pc)))
         if base[0] == "obj":
@@ -652,6 +799,8 @@ class Interp:
         # store on something we do not model: recorded as event only
 
     def store_item(self, base: Term, idx: Term, v: Term, st: State, ctx: Ctx, node: ast.AST) -> None:
+        self.frozen_guard(base, st, "assigned into", ctx.loc(node))
+        self.frozen_guard(v, st, "stored in a container", ctx.loc(node))
         desc = self.describe(base, st)
         st.events.append(Event("storeitem", desc, (idx, v), (), ctx.loc(node), ctx.fi.key if ctx.fi else "", result=base, pc_len=len(st.pc)))
         if base[0] == "obj":
@@ -700,7 +849,118 @@ class Interp:
             out.append((s, cond, sig))
         return out
 
+    def _while_reads_chunks(self, node: ast.While, st: State, ctx: Ctx) -> Optional[List[Tuple[State, Any]]]:
+        """`while chunk := stream.read(n): body` over an in-memory stream at a known position, where the body neither
+        touches the stream nor breaks, is `for chunk in <consecutive n-chunks of the rest of the buffer>: body`."""
+        t = node.test
+        if not (isinstance(t, ast.NamedExpr) and isinstance(t.target, ast.Name) and isinstance(t.value, ast.Call) and isinstance(t.value.func, ast.Attribute)
+                and t.value.func.attr == "read" and isinstance(t.value.func.value, ast.Name) and len(t.value.args) == 1 and not t.value.keywords):
+            return None
+        rname = t.value.func.value.id
+        rv = st.env.get(rname)
+        if not (isinstance(rv, tuple) and rv[0] == "obj" and st.heap[rv[1]].name == "bytesio"):
+            return None
+        n = self.eval(t.value.args[0], st, ctx)
+        ho = st.heap[rv[1]]
+        pos = ho.fields["pos"]
+        if not (is_c(n) and isinstance(n[1], int) and not isinstance(n[1], bool) and n[1] > 0 and is_c(pos) and isinstance(pos[1], int)):
+            return None
+        for b in _walk_own(node.body + node.orelse):
+            if isinstance(b, ast.Break) or (isinstance(b, ast.Name) and b.id == rname):
+                return None
+        buf = ho.fields["buf"]
+        rest = buf if pos[1] == 0 else self.lib.slice_value(self, buf, pos, c(None), c(None), st, ctx, node)
+        seq = T.to_seq(rest)
+        if seq is None or is_top(rest):
+            return None
+        st.env["$chunks"] = ("chunks", seq, n[1])
+        loop = ast.copy_location(ast.For(target=ast.Name(id=t.target.id, ctx=ast.Store()), iter=ast.Name(id="$chunks", ctx=ast.Load()), body=node.body, orelse=node.orelse, type_comment=None), node)
+        ast.fix_missing_locations(loop)
+        out: List[Tuple[State, Any]] = []
+        for s, sig in self.st_For(loop, st, ctx):
+            s.env.pop("$chunks", None)
+            if sig is None:
+                s.env[t.target.id] = c(b"" if seq[1] in ("b", "raw") else "")
+                s.heap[rv[1]].fields["pos"] = self.lib.length(self, buf, s, ctx, node)   # at the end of the buffer
+            out.append((s, sig))
+        return out
+
+    def _while_iterates_bits(self, node: ast.While, st: State, ctx: Ctx) -> Optional[List[ast.stmt]]:
+        """The lowest-set-bit walk
+               while r:  b = r & -r;  <body using b, not r>;  r ^= b        (or r -= b, r &= r - 1)
+        over a bounded non-negative r visits the set bits of r in ascending order, which is
+               for $bit in (1, 2, 4, ...):  if r0 & $bit:  b = $bit; <body>
+               r = 0
+        (two's complement: r & -r is the lowest set bit of r > 0; clearing it strictly decreases r, so the loop ends)."""
+        t = node.test
+        if isinstance(t, ast.Compare) and len(t.ops) == 1 and isinstance(t.ops[0], (ast.NotEq, ast.Gt)) and isinstance(t.comparators[0], ast.Constant) and t.comparators[0].value == 0 and type(t.comparators[0].value) is int:
+            t = t.left
+        if not isinstance(t, ast.Name) or node.orelse or len(node.body) < 2:
+            return None
+        r = t.id
+        first, last, mid = node.body[0], node.body[-1], node.body[1:-1]
+
+        def is_r(e: ast.AST) -> bool:
+            return isinstance(e, ast.Name) and e.id == r
+
+        def is_neg_r(e: ast.AST) -> bool:
+            return isinstance(e, ast.UnaryOp) and isinstance(e.op, ast.USub) and is_r(e.operand)
+
+        if not (isinstance(first, ast.Assign) and len(first.targets) == 1 and isinstance(first.targets[0], ast.Name) and isinstance(first.value, ast.BinOp) and isinstance(first.value.op, ast.BitAnd)
+                and ((is_r(first.value.left) and is_neg_r(first.value.right)) or (is_neg_r(first.value.left) and is_r(first.value.right)))):
+            return None
+        b = first.targets[0].id
+        if b == r:
+            return None
+
+        def is_b(e: ast.AST) -> bool:
+            return isinstance(e, ast.Name) and e.id == b
+
+        def is_r_minus_1(e: ast.AST) -> bool:
+            return isinstance(e, ast.BinOp) and isinstance(e.op, ast.Sub) and is_r(e.left) and isinstance(e.right, ast.Constant) and e.right.value == 1 and type(e.right.value) is int
+
+        def clears(op: ast.operator, rhs: ast.AST) -> bool:
+            return (isinstance(op, (ast.BitXor, ast.Sub)) and is_b(rhs)) or (isinstance(op, ast.BitAnd) and is_r_minus_1(rhs))
+
+        ok_last = False
+        if isinstance(last, ast.AugAssign) and is_r(last.target):
+            ok_last = clears(last.op, last.value)
+        elif isinstance(last, ast.Assign) and len(last.targets) == 1 and is_r(last.targets[0]) and isinstance(last.value, ast.BinOp) and is_r(last.value.left):
+            ok_last = clears(last.value.op, last.value.right)
+        if not ok_last:
+            return None
+        for n in _walk_own(mid):
+            if isinstance(n, (ast.Break, ast.Continue, ast.Return)) or (isinstance(n, ast.Name) and n.id == r) or (isinstance(n, ast.Name) and n.id == b and isinstance(n.ctx, (ast.Store, ast.Del))):
+                return None
+        r0 = st.env.get(r)
+        if r0 is None or not self.lib.is_int_term(r0):
+            return None
+        rng = T.int_range(r0)
+        if rng is None or rng[0] is None or rng[0] < 0 or rng[1] is None or rng[1] >= 1 << 16:
+            return None
+        bits = [1 << i for i in range(int(rng[1]).bit_length())]
+        if r0[0] == "app" and r0[1] == "and" and len(r0) == 4:
+            for x in r0[2:]:
+                if is_c(x) and isinstance(x[1], int) and not isinstance(x[1], bool) and x[1] >= 0:
+                    bits = [k for k in bits if k & x[1]]
+        st.env["$r0"] = r0
+        L = ast.Load()
+        body: List[ast.stmt] = [ast.Assign(targets=[ast.Name(id=b, ctx=ast.Store())], value=ast.Name(id="$bit", ctx=L), type_comment=None)] + list(mid)
+        test = ast.BinOp(left=ast.Name(id="$r0", ctx=L), op=ast.BitAnd(), right=ast.Name(id="$bit", ctx=L))
+        loop = ast.For(target=ast.Name(id="$bit", ctx=ast.Store()), iter=ast.Tuple(elts=[ast.Constant(value=k) for k in bits], ctx=L), body=[ast.If(test=test, body=body, orelse=[])], orelse=[], type_comment=None)
+        done = ast.Assign(targets=[ast.Name(id=r, ctx=ast.Store())], value=ast.Constant(value=0), type_comment=None)
+        out = [ast.copy_location(loop, node), ast.copy_location(done, node)]
+        for x in out:
+            ast.fix_missing_locations(x)
+        return out
+
     def st_While(self, node: ast.While, st: State, ctx: Ctx) -> List[Tuple[State, Any]]:
+        des = self._while_reads_chunks(node, st, ctx)
+        if des is not None:
+            return des
+        bits = self._while_iterates_bits(node, st, ctx)
+        if bits is not None:
+            return self.exec_block(bits, st, ctx)
         out: List[Tuple[State, Any]] = []
         live = [st]
         for it in range(12):
@@ -847,6 +1107,9 @@ class Interp:
             return list(itv[1])
         if itv[0] == "obj":
             ho = st.heap[itv[1]]
+            if ho.name.startswith("gen:"):
+                if ho.fields.get("$born") != c(getattr(self, "cur_serial", None)):
+                    raise AnalysisError(f"generator object {ho.name[4:]} is consumed in a later statement than the one that created it at {ctx.loc(node)}: lazy evaluation order is not modelled")
             if ho.kind in ("list", "set") and not ho.symbolic:
                 return list(ho.items)
             if ho.kind == "dict" and not ho.symbolic:
@@ -870,6 +1133,12 @@ class Interp:
             return [("extmeth", itv, f) for f in ("tm_year", "tm_mon", "tm_mday", "tm_hour", "tm_min", "tm_sec", "tm_wday", "tm_yday", "tm_isdst")]
         if itv[0] == "cdict":
             return [k for k, _ in itv[1]]
+        if itv[0] == "lookup":
+            # a table of equally long sequences indexed by a symbolic key: the sequence of the per-position tables
+            cols = [self.iter_items(v, st, ctx, node) for _, v in itv[1]]
+            if cols and all(x is not None and len(x) == len(cols[0]) for x in cols):
+                return [("lookup", tuple((k, col[i]) for (k, _), col in zip(itv[1], cols)), itv[2]) for i in range(len(cols[0]))]
+            return None
         if itv[0] == "class" and itv[1].enum is not None:
             return [("enum", EnumRef(itv[1].key, m)) for m in itv[1].enum.members]
         if itv[0] == "mapobj":
@@ -942,6 +1211,20 @@ class Interp:
         return any(exc_is_subclass(exc[1], n) for n in names)
 
     def st_With(self, node: ast.With, st: State, ctx: Ctx) -> List[Tuple[State, Any]]:
+        item0 = node.items[0]
+        if isinstance(item0.context_expr, ast.Call):
+            fv0 = None
+            try:
+                fv0 = self.eval(item0.context_expr.func, st.fork(), ctx)
+            except (AnalysisError, Unsupported):
+                fv0 = None
+            fi0 = fv0[1] if fv0 is not None and fv0[0] == "func" else fv0[2] if fv0 is not None and fv0[0] == "bound" else None
+            if isinstance(fi0, FunctionInfo) and any(d.split("(")[0].split(".")[-1] in ("contextmanager", "asynccontextmanager") for d in fi0.decorators):
+                body = node.body
+                if len(node.items) > 1:
+                    inner = type(node)(items=node.items[1:], body=node.body, type_comment=None)
+                    body = [ast.copy_location(inner, node)]
+                return self._with_generator_cm(fv0, fi0, item0, body, node, st, ctx)
         for item in node.items:
             v = self.eval(item.context_expr, st, ctx)
             if item.optional_vars is not None:
@@ -955,6 +1238,61 @@ class Interp:
         return out
 
     st_AsyncWith = st_With
+
+    def _with_generator_cm(self, fv: Term, fi: FunctionInfo, item: ast.withitem, body: List[ast.stmt], node: ast.AST, st: State, ctx: Ctx) -> List[Tuple[State, Any]]:
+        """`with f(...) [as x]: body` where f is a repository generator decorated with (async)contextmanager.
+
+        contextlib runs f up to its `yield`, then the block, then resumes f - normally when the block ends normally,
+        by throwing the block's exception at the `yield` otherwise; an exception f does not let out is suppressed.
+        The interpreter does the same: f's body is run with a hook at the `yield` statement that runs the block in
+        the caller's environment and hands its outcomes back as the outcomes of the `yield`.  Not modelled (exit 2):
+        a block left by return / break / continue, a path of f that yields twice or finishes without yielding."""
+        where = ctx.loc(node)
+        if not is_generator(fi):
+            raise AnalysisError(f"{fi.key} is decorated as a context manager but has no yield at {where}")
+        args, kwargs = self.eval_args(item.context_expr, st, ctx)
+        self.calls_resolved.append((where, fi.key))
+        self.functions_visited[fi.key] = self.functions_visited.get(fi.key, 0) + 1
+        bound = self.bind(fi, args, kwargs, fv[1] if fv[0] == "bound" else None, where)
+        if ctx.depth > self.max_depth:
+            raise AnalysisError(f"inlining depth exceeded at {fi.key}")
+        st.cm_stack.append((st.env, 0))
+        st.env = dict(bound)
+        for name, dnode in fi.defaults().items():
+            if name not in st.env:
+                st.env[name] = self.eval(dnode, st, Ctx(None, fi.module, ctx.depth + 1))
+
+        def at_yield(s: State, value: Term) -> List[Tuple[State, Any]]:
+            genv = s.env
+            cal, ny = s.cm_stack.pop()
+            if ny:
+                raise AnalysisError(f"context manager {fi.key} yields twice on one path at {where}")
+            s.env = dict(cal)
+            if item.optional_vars is not None:
+                self.assign(item.optional_vars, value, s, ctx)
+            res: List[Tuple[State, Any]] = []
+            for s2, sig in self.exec_block(body, s, ctx):
+                if sig is not None and sig[0] != "raise":
+                    raise AnalysisError(f"with-block managed by the generator {fi.key} is left by {sig[0]} at {where}")
+                s2.cm_stack.append((s2.env, 1))
+                s2.env = dict(genv)
+                res.append((s2, sig))
+            return res
+
+        nctx = Ctx(fi, fi.module, ctx.depth + 1, ctx.where_stack + (fi.qualname.split(".")[-1],), at_yield)
+        out: List[Tuple[State, Any]] = []
+        for s, sig in self.exec_block(list(fi.node.body), st, nctx):
+            cal, ny = s.cm_stack.pop()
+            s.env = dict(cal)
+            if sig is None or sig[0] == "return":
+                if ny != 1:
+                    raise AnalysisError(f"context manager {fi.key} finishes without yielding on some path at {where}")
+                out.append((s, None))
+            elif sig[0] == "raise":
+                out.append((s, sig))
+            else:
+                raise AnalysisError(f"stray {sig[0]} in {fi.key}")
+        return out
 
     def st_Assert(self, node: ast.Assert, st: State, ctx: Ctx) -> List[Tuple[State, Any]]:
         return [(st, None)]
@@ -1496,6 +1834,8 @@ class Interp:
             raise AnalysisError(f"unresolved enum attribute {ref!r}.{attr} at {ctx.loc(node)}")
         if t == "obj":
             ho = st.heap[base[1]]
+            if ho.name == "bytesio" and attr in ("read", "getvalue", "tell"):
+                return ("biometh", base, attr)
             if ho.kind == "obj":
                 if attr in ho.fields:
                     return ho.fields[attr]
@@ -1525,7 +1865,7 @@ class Interp:
                 if attr in getattr(ho, "absent", ()):
                     # the model of this instance says the attribute has not been set yet (e.g. never connected)
                     st.may_raise("AttributeError", c(True), ctx.loc(node))
-                    return top(f"attribute {attr} is not set on this instance")
+                    return top(f"never: attribute {attr} is not set on this instance")
                 if ho.name:
                     # attribute that no modelled constructor sets: state lingering from elsewhere
                     st.events.append(Event("readattr", f"{ho.name}.{attr}", (), (), ctx.loc(node), ctx.fi.key if ctx.fi else "", pc_len=len(st.pc)))
@@ -1635,6 +1975,36 @@ class Interp:
             return self.call_lambda(fv, args, st, ctx, node)
         if t == "partialobj":
             return self.call(fv[1], list(fv[2]) + args, kwargs, st, ctx, node, awaited)
+        if t == "biometh" and not kwargs:
+            # an in-memory byte stream: the buffer and a constant read position
+            ho = st.heap[fv[1][1]]
+            buf, pos = ho.fields["buf"], ho.fields["pos"]
+            if fv[2] == "getvalue" and not args:
+                return buf
+            if fv[2] == "tell" and not args:
+                return pos
+            if fv[2] == "read" and is_c(pos) and isinstance(pos[1], int):
+                n_ = args[0][1] if len(args) == 1 and is_c(args[0]) and isinstance(args[0][1], int) and not isinstance(args[0][1], bool) and args[0][1] >= 0 else None
+                if not args or (len(args) == 1 and is_c(args[0]) and (args[0][1] is None or (isinstance(args[0][1], int) and args[0][1] < 0))):
+                    ho.fields["pos"] = self.lib.length(self, buf, st, ctx, node)
+                    return self.lib.slice_value(self, buf, pos, c(None), c(None), st, ctx, node)
+                if n_ is not None:
+                    ho.fields["pos"] = c(pos[1] + n_)    # (past the end when the buffer is shorter: later reads are empty either way)
+                    return self.lib.slice_value(self, buf, pos, c(pos[1] + n_), c(None), st, ctx, node)
+            raise AnalysisError(f"in-memory stream method {fv[2]} in a form that is not modelled at {ctx.loc(node)}")
+        if t == "lookup" and fv[1] and all(isinstance(f, tuple) and f and f[0] in ("lambda", "func", "bound", "partialobj") for _, f in fv[1]):
+            # call of a callable chosen from a table by a symbolic key: the table of the results; what an entry may
+            # raise is raised only when the key selects it
+            alts = []
+            n_ev = len(st.events)
+            for k, f in fv[1]:
+                n0 = len(st.pending)
+                r = self.call(f, args, kwargs, st, ctx, node, awaited)
+                st.pending[n0:] = [(e_, conj([mkcmp("==", fv[2], k), cnd_]), w_, nev_) for e_, cnd_, w_, nev_ in st.pending[n0:]]
+                alts.append((k, r))
+            if len(st.events) != n_ev:
+                raise AnalysisError(f"call of a table-selected callable with observable effects at {ctx.loc(node)}")
+            return ("lookup", tuple(alts), fv[2])
         if t == "sym" or t == "modvar":
             # call of an opaque callable (user callback, factory...)
             # a user callback / factory is the environment; a module-level object the analyser could not evaluate is not
@@ -1646,6 +2016,8 @@ class Interp:
         (stream, transport, loop, user callback) is a fresh unknown - an exact model of the environment.  With
         opaque=True the callee is a library function / value method the analyser has no model for: its result is
         named `opq:` and counts as imprecision of the analysis (terms.OPAQUE_SEEN)."""
+        for a_ in list(args) + list(kwargs.values()):
+            self.frozen_guard(a_, st, f"passed to {target}", ctx.loc(node))
         if result is None:
             result = ("sym", st.fresh(f"{'opq' if opaque else 'ret'}:{target}"), "any")
         st.events.append(
@@ -2051,6 +2423,8 @@ class Interp:
             return c(True)
         if t == "sym" and isinstance(v[2], tuple) and v[2] and v[2][0] == "extobj":
             return c(True)  # library objects (transports, streams) define no __bool__/__len__
+        if t in ("app", "lin", "uint", "eattr") and _is_int_term(v):
+            return mkcmp("!=", v, c(0))   # the truth of an integer is `!= 0`
         return ("truthy", v)
 
 
@@ -2313,6 +2687,11 @@ def mkcmp(op: str, a: Term, b: Term) -> Term:
     return ("cmp", op, a, b)
 
 
+def _is_int_term(v: Term) -> bool:
+    from .lib import is_int_term
+    return isinstance(v, tuple) and bool(v) and is_int_term(v)
+
+
 def fold_cmp(op: str, a: Term, b: Term) -> Optional[bool]:
     """Decide a comparison when both sides are fully known; None otherwise."""
     if op in ("is", "is not"):
@@ -2321,7 +2700,7 @@ def fold_cmp(op: str, a: Term, b: Term) -> Optional[bool]:
         if is_c(b) and b[1] is None:
             if is_c(a):
                 r = a[1] is None
-            elif a[0] in ("enum", "obj", "seq", "tuple", "func", "class", "uint", "lin") or (
+            elif a[0] in ("enum", "obj", "seq", "tuple", "func", "class", "uint", "lin", "len", "dec") or _is_int_term(a) or (
                 a[0] == "sym" and a[2] in ("bytes", "str", "int", "hex", "bool", "float")
             ) or (a[0] == "sym" and isinstance(a[2], tuple) and a[2] and a[2][0] in ("hexw", "hexbw", "int", "enum", "extobj", "set", "list")):
                 r = False
